@@ -138,51 +138,23 @@ def to_chain_structure(qc, setup="linear"):
                         )
                     i += 1
 
-                j = 0
-                for gate in temp.gates:
-                    if j < N - end - 2:
-                        if gate.name in ["CNOT", "CSIGN"]:
-                            qc_t.add_gate(
-                                gate.name,
-                                end + gate.targets[0],
-                                end + gate.controls[0],
-                            )
-                        else:
-                            qc_t.add_gate(
-                                gate.name,
-                                [end + gate.targets[0], end + gate.targets[1]],
-                            )
-                    elif j == N - end - 2:
-                        if gate.name in ["CNOT", "CSIGN"]:
-                            qc_t.add_gate(
-                                gate.name,
-                                end + gate.targets[0],
-                                (end + gate.controls[0]) % N,
-                            )
-                        else:
-                            qc_t.add_gate(
-                                gate.name,
-                                [
-                                    end + gate.targets[0],
-                                    (end + gate.targets[1]) % N,
-                                ],
-                            )
+                # The temporary path starts at `end` and wraps around the
+                # ring, so every index is taken modulo N.
+                for temp_gate in temp.gates:
+                    if temp_gate.name in ["CNOT", "CSIGN"]:
+                        qc_t.add_gate(
+                            temp_gate.name,
+                            (end + temp_gate.targets[0]) % N,
+                            (end + temp_gate.controls[0]) % N,
+                        )
                     else:
-                        if gate.name in ["CNOT", "CSIGN"]:
-                            qc_t.add_gate(
-                                gate.name,
-                                (end + gate.targets[0]) % N,
-                                (end + gate.controls[0]) % N,
-                            )
-                        else:
-                            qc_t.add_gate(
-                                gate.name,
-                                [
-                                    (end + gate.targets[0]) % N,
-                                    (end + gate.targets[1]) % N,
-                                ],
-                            )
-                    j = j + 1
+                        qc_t.add_gate(
+                            temp_gate.name,
+                            [
+                                (end + temp_gate.targets[0]) % N,
+                                (end + temp_gate.targets[1]) % N,
+                            ],
+                        )
 
             elif (end - start) == N - 1:
                 qc_t.add_gate(gate.name, gate.targets, gate.controls)
@@ -239,30 +211,14 @@ def to_chain_structure(qc, setup="linear"):
                         )
                     i += 1
 
-                j = 0
-                for gate in temp.gates:
-                    if j < N - end - 2:
-                        qc_t.add_gate(
-                            gate.name,
-                            [end + gate.targets[0], end + gate.targets[1]],
-                        )
-                    elif j == N - end - 2:
-                        qc_t.add_gate(
-                            gate.name,
-                            [
-                                end + gate.targets[0],
-                                (end + gate.targets[1]) % N,
-                            ],
-                        )
-                    else:
-                        qc_t.add_gate(
-                            gate.name,
-                            [
-                                (end + gate.targets[0]) % N,
-                                (end + gate.targets[1]) % N,
-                            ],
-                        )
-                    j = j + 1
+                for temp_gate in temp.gates:
+                    qc_t.add_gate(
+                        temp_gate.name,
+                        [
+                            (end + temp_gate.targets[0]) % N,
+                            (end + temp_gate.targets[1]) % N,
+                        ],
+                    )
 
         else:
             # This gate can be general quantum operations
